@@ -9,6 +9,10 @@ CONSTANTS
   MaxInFlight = 1
   ForgeBudget = 1
   Classes <- AllClasses
+  FineIngest = FALSE
+  Batch = FALSE
+  Worker = {}
+  Variant_ReadLatestBeforeBegin = FALSE
   Defect_PruneAfterFailedIngest = FALSE
   Defect_PruneFlagSkipsLatestCheck = FALSE
   Defect_LogIdFromTopicUnchecked = FALSE
